@@ -217,7 +217,7 @@ func batch(args []string) {
 			}
 		}
 		for _, v := range o.Violations {
-			if v.Prop != d.Prop {
+			if v.Prop != d.Prop && !(os.Getenv("VSIM_OWN") != "" && strings.HasPrefix(v.Sig, os.Getenv("VSIM_OWN"))) {
 				sum.Side[v.Prop+" "+v.Sig]++
 				continue
 			}
